@@ -57,6 +57,10 @@ CHECK = {
            'behave exactly as with a plain message. '
            'Message texts vary with the slot of the throw (plain, a literal %%, %s of a String "50% off", %$ of a String containing %d %s %): the text must never matter. '
            'In the objs=cmptry instances the thrown values and the filter entries belong to a class whose Cmp function opens try blocks of its own (one, two nested, two in sequence; nothing thrown) while exception_catch scans the filter. '
+           'Built-in kinds (mode=builtin): every exception kind declared in Cello.h (16; the list is compared with the header of the tree under test) must carry its C identifier as name and be a distinct object; '
+           'all 16x16 ordered pairs (throw X inside a try whose filter lists Y inside a catch-all): the inner handler runs iff X is Y, otherwise the outer one receives exactly X; '
+           'three nested filters listing every ordered triple of distinct kinds x every kind thrown (53760 programs): exactly the level that lists the thrown kind handles it; '
+           'each kind thrown with no try block and past every other kind\'s filter in a forked child must end with a failure status and "Uncaught <identifier>". '
            'Deep nesting (mode=deep): recursion with D try blocks open at once, D in {1,2,3,17,100,1000,MAX-2,MAX-1,MAX} with MAX = '
            'EXCEPTION_MAX_DEPTH taken from the library source (MAX+1 aborts by design and is not run), non-matching filters at every level '
            'except a target (outermost/middle/innermost/nobody; typed or catch-all), A or B thrown at the bottom, optionally re-thrown by the '
@@ -142,6 +146,8 @@ CHECK = {
          X('deep-cmptry', 'base', 'mode=deep', 'objs=cmptry'),
          X('d1-cmptry-asan', 'asan', 'objs=cmptry', 'depth=1', 'alpha=' + ALL, 'ppalpha=012', 'chain=1')]
       + (CMPTHROW['quick'] if CMPTHROW_ENABLED else [])
+      # the library's own exception kinds: names, all 16x16 thrown x filter pairs, three-level routing, Uncaught diagnostics
+      + [X('builtin', 'base', 'mode=builtin'), X('builtin-asan', 'asan', 'mode=builtin')]
       # deep dynamic nesting (recursion) up to EXCEPTION_MAX_DEPTH open try blocks, one forked child per case
       + [X('deep', 'base', 'mode=deep'),
          X('deep-val', 'base', 'mode=deep', 'objs=struct'),
@@ -219,6 +225,8 @@ CHECK = {
          X('d2-cmptry-asan', 'asan', 'objs=cmptry', 'depth=2', 'alpha=0124', 'ppalpha=0'),
          X('deep-cmptry-asan', 'asan', 'mode=deep', 'objs=cmptry')]
       + (CMPTHROW['thorough'] if CMPTHROW_ENABLED else [])
+      # the library's own exception kinds: names, all 16x16 thrown x filter pairs, three-level routing, Uncaught diagnostics
+      + [X('builtin', 'base', 'mode=builtin'), X('builtin-asan', 'asan', 'mode=builtin')]
       # deep dynamic nesting (recursion) up to EXCEPTION_MAX_DEPTH open try blocks, one forked child per case
       + [X('deep', 'base', 'mode=deep'),
          X('deep-val', 'base', 'mode=deep', 'objs=struct'),
